@@ -27,7 +27,14 @@ META = dict(
          "transitions; a third with T re-aimed at now / the horizon shifted by the host's offset) - installed with "
          "time.tzset() in the driver, the controlled clock answering now() without tz with the host's local wall clock; "
          "neither the oracle nor the model sees the host zone; non-trivial iff |T-now| <= 62 s or T within 3 us of now / of the horizon; "
-         "distinct by (now, T, spelling, host zone)",
+         "distinct by (now, T, spelling, host zone); plus back-to-back groups (one case = 2..10 ScheduledTask constructions + "
+         "get_task_delay evaluations in ONE process, in a forked child of the driver; about a quarter of the evaluations): the two "
+         "readings fold=0 / fold=1 of a repeated wall-clock hour on one tzinfo object (zoneinfo and dateutil zones; wall-clock "
+         "fields + fold given to the datetime constructor, T computed by the harness from a fresh tzinfo object), both readings of a "
+         "skipped hour, fold=1 where it means nothing, one instant in several spellings, one wall clock in several zones, equal "
+         "values as distinct objects, the same datetime object for several tasks, the same task evaluated at several instants, "
+         "times handed over as ISO 8601 strings, tasks built one by one or all before the first evaluation (any order), a third on a "
+         "non-UTC host (a third of those the zone of the schedules); every element judged on its own by the same oracle and model",
     trusted_base=["model: coq/theories/SchedDelay.v (hand-written transcription of get_task_delay's time branch)",
                   "datetime<->integer instant conversion in harness/drivers/sched_delay.py"],
     assumptions=["asyncio.sleep(d) not waking early is outside this property (C15)"],
@@ -175,6 +182,241 @@ def gen_plain(r):
     return dict(type="time", now=now, T=T, spell=gen_spell(r))
 
 
+# ---------------------------------------------------------------- back-to-back groups (one scheduler process, several schedules)
+# The statement speaks about ONE schedule and ONE reading of the clock, so a stream of independent (now, T) cases, each a
+# single ScheduledTask in whatever process the shard runs in, holds constant everything a long-lived scheduler keeps
+# between schedules: which ScheduledTask / datetime / tzinfo OBJECTS it has seen before.  A group is one case: several
+# schedule times constructed (the real model, validators included) and evaluated one after the other in ONE process.
+# The times of a group are chosen to look alike to anything that identifies a time by less than its instant: the two
+# readings (fold 0 / 1) of a repeated wall-clock hour on one tzinfo object - datetime's own == and hash ignore fold
+# there -, both readings of a skipped hour, fold=1 where it means nothing, one instant spelled in several zones, one
+# wall clock in several zones, equal values that are distinct objects, the same object / the same task again.
+# Every element is judged on its own by the unchanged oracle and model.  T of a wall-clock spelling is computed HERE, in the
+# harness process, from a fresh tzinfo object (datetime arithmetic, utcoffset() with fold) - never through taskiq.
+EPOCH_AWARE = None
+_FRESH = {}
+
+
+def _epoch():
+    global EPOCH_AWARE
+    if EPOCH_AWARE is None:
+        import datetime as dt
+        EPOCH_AWARE = dt.datetime(1970, 1, 1, tzinfo=dt.timezone.utc)
+    return EPOCH_AWARE
+
+
+def pep495_zone(kind, zone):
+    """a tzinfo of a PEP 495 zone library over pytz's own copy of the zone data (what the driver reads, separately)"""
+    import os
+
+    import pytz
+    path = os.path.join(os.path.dirname(pytz.__file__), "zoneinfo", zone)
+    if kind == "zoneinfo":
+        import zoneinfo
+        return zoneinfo.ZoneInfo.from_file(open(path, "rb"), key=zone)
+    import dateutil.tz
+    return dateutil.tz.tzfile(path)
+
+
+def gzone(kind, zone):
+    if (kind, zone) not in _FRESH:
+        _FRESH[kind, zone] = pep495_zone(kind, zone)
+    return _FRESH[kind, zone]
+
+
+def wall_instant(kind, zone, wall, fold):
+    """the instant (us) the aware datetime (wall-clock fields, fold, zone) denotes: datetime's own arithmetic"""
+    import datetime as dt
+    d = dt.datetime(*wall, fold=fold, tzinfo=gzone(kind, zone))
+    return (d - _epoch()) // dt.timedelta(microseconds=1)
+
+
+def wall_of(kind, zone, T):
+    """(wall-clock fields, fold) the zone shows at instant T"""
+    import datetime as dt
+    d = (_epoch() + dt.timedelta(microseconds=T)).astimezone(gzone(kind, zone))
+    return [d.year, d.month, d.day, d.hour, d.minute, d.second, d.microsecond], d.fold
+
+
+def offset_at(zone, T):
+    import datetime as dt
+    off = (_epoch() + dt.timedelta(microseconds=T)).astimezone(gzone("zoneinfo", zone)).utcoffset()
+    return (off.days * 86400 + off.seconds) * US + off.microseconds
+
+
+def shift_wall(wall, us):
+    import datetime as dt
+    d = dt.datetime(*wall) + dt.timedelta(microseconds=us)
+    return [d.year, d.month, d.day, d.hour, d.minute, d.second, d.microsecond]
+
+
+_SHIFTS = {}
+
+
+def zone_shifts(zone):
+    """[(transition instant, offset before - offset after)] of the zone, 2015-2035: > 0 a repeated, < 0 a skipped hour"""
+    if zone not in _SHIFTS:
+        _SHIFTS[zone] = [(t, d) for t in transitions(zone) for d in [offset_at(zone, t - 1) - offset_at(zone, t)] if d]
+    return _SHIFTS[zone]
+
+
+DSTZ = [z for z in ZONES if z not in ("Asia/Kolkata", "Asia/Kathmandu")]
+SUBSEC = [(0, 0), (0, 0), (1, 0), (1, 1), (1, 2), (0, 999_999), (0, 1), (59, 999_999), (30, 500_000)]
+
+
+def wall_value(kind, zone, wall, fold, tag, tzid=0):
+    return dict(T=wall_instant(kind, zone, wall, fold), tag=tag,
+                spell=dict(kind=kind, zone=zone, wall=wall, fold=fold, tzid=tzid))
+
+
+def pin_subsec(r, T):
+    """move T inside its minute to a second / microsecond where the horizon and rounding boundaries sit"""
+    if r.random() < .6:
+        s, us = r.choice(SUBSEC)
+        return T // MIN * MIN + s * US + us
+    return T
+
+
+def aim_now(r, T):
+    """a `now` around T: the boundary-biased distances of the single-case generator, seen from T"""
+    k = r.random()
+    if k < .3:
+        return T - r.choice([-1, 0, 1, US, US - 1, US + 1, 2 * US, 59 * US, 60 * US, 61 * US, -US]) + r.randrange(-3, 4)
+    if k < .65:
+        return T - r.randrange(0, 62) * US - r.choice([0, 0, 1, -1, r.randrange(US)])
+    if k < .8:      # T at / around the horizon of now: now somewhere in the minute before the one T - 1 s starts
+        return (T - US) // MIN * MIN - r.randrange(1, MIN + 1) + r.choice([0, 0, MIN])
+    if k < .9:
+        return T + r.randrange(0, 5 * US)
+    return T + r.randrange(-7200 * US, 7200 * US)
+
+
+def gen_group(r):
+    zone = r.choice(DSTZ)
+    kind = r.choice(["zoneinfo", "zoneinfo", "dateutil"])
+    scen = r.choices(["fold-pair", "gap", "same-instant", "same-wall", "repeat"], [.4, .1, .2, .15, .15])[0]
+    sh = zone_shifts(zone)
+    vals = []
+    if scen == "fold-pair" and not [x for x in sh if x[1] > 0]:
+        scen = "same-instant"
+    if scen == "gap" and not [x for x in sh if x[1] < 0]:
+        scen = "same-instant"
+    if scen == "fold-pair":       # one wall clock of the repeated hour, both readings, ONE tzinfo object
+        tr, d = r.choice([x for x in sh if x[1] > 0])
+        first = pin_subsec(r, tr - r.randrange(1, d + 1))             # an instant of the first pass
+        if not tr - d <= first < tr:
+            first = tr - r.randrange(1, d + 1)
+        wall, f = wall_of(kind, zone, first)
+        tzid = 0
+        for fold in r.sample([0, 1], 2):
+            if r.random() < .12:
+                tzid += 1        # the other reading on another tzinfo instance of the same zone
+            vals.append(wall_value(kind, zone, wall, fold, "repeated-hour fold=%d" % fold, tzid))
+        if r.random() < .4:      # a neighbour one shift earlier / later on the wall clock: unambiguous, any fold
+            w2 = shift_wall(wall, r.choice([-1, 1]) * d)
+            vals.append(wall_value(kind, zone, w2, r.choice([0, 1]), "next to the repeated hour"))
+        if r.random() < .25:     # a second wall clock of the same repeated hour
+            w2, _ = wall_of(kind, zone, tr - r.randrange(1, d + 1))
+            vals.append(wall_value(kind, zone, w2, r.choice([0, 1]), "repeated-hour other wall clock"))
+    elif scen == "gap":          # a wall clock the zone skips: fold picks the offset before / after (PEP 495)
+        tr, d = r.choice([x for x in sh if x[1] < 0])
+        wall = shift_wall(wall_of(kind, zone, tr - 1)[0], 1 + r.randrange(0, -d))
+        if r.random() < .5:
+            wall[5], wall[6] = r.choice(SUBSEC)
+        for fold in r.sample([0, 1], 2):
+            vals.append(wall_value(kind, zone, wall, fold, "skipped-hour fold=%d" % fold))
+    elif scen == "same-instant":  # one instant, several spellings (zones, libraries, fold=1 where it means nothing)
+        c = gen_dst_case(r) if r.random() < .5 else gen_plain(r)
+        T = pin_subsec(r, c["T"])
+        for _ in range(r.choice([2, 3, 3, 4])):
+            vals.append(instant_value(r, T, zone, "one instant, several spellings"))
+    elif scen == "same-wall":    # one wall clock read in several zones: different instants that print alike
+        c = gen_dst_case(r) if r.random() < .3 else gen_plain(r)
+        wall, _ = wall_of("zoneinfo", zone, pin_subsec(r, c["T"]))
+        for z in [zone] + r.sample([z for z in ZONES if z != zone], r.choice([1, 2])):
+            try:
+                vals.append(wall_value(r.choice(["zoneinfo", "dateutil"]), z, wall, r.choice([0, 0, 1]),
+                                       "one wall clock, several zones"))
+            except (ValueError, OverflowError):
+                pass
+        import datetime as dt
+        Tw = (dt.datetime(*wall) - dt.datetime(1970, 1, 1)) // dt.timedelta(microseconds=1)
+        vals.append(dict(T=Tw, tag="one wall clock, several zones", spell={"kind": "naive"}))
+        if r.random() < .5:
+            m = r.randint(-12, 14) * 60 + r.choice([0, 0, 30, 45])
+            vals.append(dict(T=Tw - m * MIN, tag="one wall clock, several zones", spell={"kind": "fixed", "minutes": m}))
+    else:                        # one value many times
+        c = gen_dst_case(r) if r.random() < .5 else gen_plain(r)
+        vals.append(instant_value(r, pin_subsec(r, c["T"]), zone, "one value again and again"))
+    if r.random() < .3:          # fold=1 where the wall clock is not ambiguous
+        T = pin_subsec(r, vals[0]["T"] + r.choice([-1, 1]) * r.choice([3600, 86400, 60, 7 * 86400]) * US)
+        wall, f = wall_of(kind, zone, T)
+        try:
+            vals.append(wall_value(kind, zone, wall, 1 - f if r.random() < .8 else f, "fold flipped on some wall clock"))
+        except (ValueError, OverflowError):
+            pass
+    host, hostkind = None, None
+    if r.random() < .3:          # the whole group on ONE host zone; a third of them the very zone of the schedules
+        k = r.random()
+        if k < .35:
+            host, hostkind = zone, "iana-of-the-schedules"
+        elif k < .7:
+            host, hostkind = r.choice(HOSTS_POSIX)[0], "posix"
+        else:
+            host, hostkind = r.choice(HOSTS_IANA), "iana"
+    Ts = [v["T"] for v in vals]
+    picks = list(range(len(vals))) + [r.randrange(len(vals)) for _ in range(r.randint(1, max(1, 9 - len(vals))))]
+    elems = []
+    for vi in picks:
+        v = vals[vi]
+        e = dict(type="time", now=aim_now(r, v["T"] if r.random() < .6 else r.choice(Ts)), T=v["T"], spell=v["spell"],
+                 tag=v["tag"], scen=scen, val=vi)
+        if host:
+            e["host"], e["hostkind"] = host, hostkind
+        elems.append(e)
+    elems.sort(key=lambda e: e["now"])      # time does not run backwards inside one process
+    nobj = 0
+    for k, e in enumerate(elems):
+        prev = [p for p in elems[:k] if p["val"] == e["val"]]
+        x = r.random()
+        if prev and x < .2:       # the same ScheduledTask evaluated again (the loop, a minute later)
+            p = r.choice(prev)
+            if p.get("task") is None:
+                p["task"] = nobj
+                nobj += 1
+            e["task"], e["obj"] = p["task"], p["obj"]
+            if p.get("via"):
+                e["via"] = p["via"]
+        elif prev and x < .45:    # the same datetime OBJECT handed to another ScheduledTask
+            e["obj"] = r.choice(prev)["obj"]
+        else:                     # an equal value, a distinct object (the zone object stays shared)
+            e["obj"] = nobj
+            nobj += 1
+            if x > .9:
+                e["via"] = "iso"
+    g = dict(type="group", group=elems, mode=r.choice(["interleaved", "build-first"]), scen=scen)
+    if g["mode"] == "build-first":
+        g["build_order"] = r.sample(range(len(elems)), len(elems))
+    return g
+
+
+def instant_value(r, T, zone, tag):
+    """instant T in one of the spellings: the instant-derived ones of the single cases, or wall clock + fold in a PEP 495 zone"""
+    if r.random() < .5:
+        kind = r.choice(["zoneinfo", "dateutil"])
+        z = zone if r.random() < .6 else r.choice(ZONES)
+        wall, fold = wall_of(kind, z, T)
+        v = wall_value(kind, z, wall, fold, tag)
+        if v["T"] == T:           # (dateutil reads a few instants next to a transition differently on the way back:
+            return v              # then the instant is spelled another way)
+    sp = gen_spell(r)
+    if sp["kind"] == "zoneinfo":
+        sp = {"kind": "pytz", "zone": sp["zone"]}
+    if r.random() < .3:
+        sp["fold"] = 1            # means nothing for naive / fixed-offset / pytz values: the same instant
+    return dict(T=T, tag=tag, spell=sp)
+
+
 def nontrivial(c):
     hor = (c["now"] + MIN) // MIN * MIN + US
     return abs(c["T"] - c["now"]) <= 62 * US or abs(c["T"] - hor) <= 3
@@ -189,12 +431,69 @@ COQ_BODY = """Fixpoint bad (i : nat) (l : list (Z * Z * option Z)) : list nat :=
 Eval vm_compute in bad 0%nat cases."""
 
 
+GROUP_NOTE = " [element of a back-to-back group: several schedules built and evaluated in one process]"
+
+
+def flatten(cases, obs):
+    """(element, its observation, the case to record when it fails) - the elements of a group are judged one by one;
+    the recorded case is the whole group (what else was built / evaluated in the process is part of the input)"""
+    out = []
+    for c, o in zip(cases, obs):
+        if c.get("type") != "group":
+            out.append((c, o, c))
+            continue
+        eo = o["group"] if "group" in o else [o] * len(c["group"])
+        for k, (e, x) in enumerate(zip(c["group"], eo)):
+            out.append((e, x, dict(c, at=k)))
+    return out
+
+
+def group_counts(rep, g):
+    """what one group revisits - counted from the case alone"""
+    el = g["group"]
+    rep.count("group:groups")
+    rep.count("group:elements", len(el))
+    rep.count("group:scenario:" + g.get("scen", "corpus"))
+    rep.count("group:mode:" + g.get("mode", "interleaved"))
+    rep.count("group:distinct-schedule-times=%d" % len({e["T"] for e in el}))
+    walls = {}
+    for k, e in enumerate(el):
+        sp = e["spell"]
+        if "wall" in sp:
+            walls.setdefault((sp["kind"], sp["zone"], sp.get("tzid", 0), tuple(sp["wall"])), set()).add(e["T"])
+    if any(len(v) > 1 for v in walls.values()):
+        rep.count("group:one wall clock on ONE tzinfo object denotes two instants (fold 0 / 1)")
+    by_obj, by_task, by_T = {}, {}, {}
+    for e in el:
+        by_obj.setdefault(e.get("obj"), []).append(e)
+        by_T.setdefault(e["T"], set()).add(C.canon(e["spell"]))
+        if e.get("task") is not None:
+            by_task.setdefault(e["task"], []).append(e)
+    if any(k is not None and len(v) > 1 for k, v in by_obj.items()):
+        rep.count("group:one datetime object handed over more than once")
+    if any(len(v) > 1 for v in by_task.values()):
+        rep.count("group:one ScheduledTask evaluated at several instants")
+    if any(len(v) > 1 for v in by_T.values()):
+        rep.count("group:one instant in several spellings")
+    if len({(e["T"], C.canon(e["spell"])) for e in el}) < len({e.get("obj") for e in el}):
+        rep.count("group:equal values as distinct objects")
+
+
 def explore(ctx, rep, cases, label):
     obs = C.run_driver(ctx, "sched_delay", cases)
     lits, keep = [], []
-    for c, o in zip(cases, obs):
+    for c in cases:
+        if c.get("type") == "group":
+            group_counts(rep, c)
+    for c, o, rec in flatten(cases, obs):
+        ing = rec is not c
         rep.case(c, nontrivial(c))
-        rep.count("spell:" + c["spell"]["kind"])
+        sp = c["spell"]
+        rep.count("spell:" + sp["kind"] + (":wall-clock+fold" if "wall" in sp else ""))
+        if "wall" in sp or sp.get("fold"):
+            rep.count("fold:%d on %s" % (sp.get("fold", 0), c.get("tag") or ("a %s value" % sp["kind"])))
+        if c.get("via"):
+            rep.count("via:" + c["via"])
         rep.count("host-zone:" + (c.get("hostkind") or "UTC (harness default)"))
         if c.get("host"):
             rep.count("host-zone-string:" + c["host"])
@@ -202,22 +501,59 @@ def explore(ctx, rep, cases, label):
                 ho = o["host_off_us"]
                 rep.count("host-offset:" + ("zero" if ho == 0 else ("east" if ho > 0 else "west") +
                                             (" whole hours" if ho % (3600 * US) == 0 else " with minutes")))
+        if "spelled_us" in o and o["spelled_us"] != c["T"]:
+            # not an observation of taskiq: the driver's own reading of the spelled value (objects taskiq never saw)
+            raise RuntimeError("harness inconsistency: case %s spells instant %r, the generator computed %r" % (
+                json.dumps(c), o["spelled_us"], c["T"]))
         if "_crash" in o:
-            rep.fail("get_task_delay raised", c, observed=o["_crash"])
+            rep.fail("get_task_delay raised" + (GROUP_NOTE if ing else ""), rec, observed=o["_crash"])
             continue
         d = o["delay"]
         rep.count("outcome:" + ("none" if d is None else "zero" if d == 0 else "delay"))
+        if ing:
+            rep.count("group:outcome:" + ("none" if d is None else "zero" if d == 0 else "delay"))
         if o.get("badtype") or not oracle(c["now"], c["T"], d):
-            rep.fail("one-shot delay violates the statement (early, >1 s late, or wrong case)", c, observed=d,
-                     expected="T<=now: 0; T>next minute boundary+1s: None; else d with T <= now+d < T+1s")
+            rep.fail("one-shot delay violates the statement (early, >1 s late, or wrong case)" + (GROUP_NOTE if ing else ""),
+                     shrink_group(ctx, rec) if ing and not any(GROUP_NOTE in f["what"] for f in rep.failures) else rec,
+                     observed=d, expected="T<=now: 0; T>next minute boundary+1s: None; else d with T <= now+d < T+1s")
             if o.get("badtype"):
                 continue
         lits.append(C.cpair(C.cz(c["now"]), C.cz(c["T"]), C.copt(d, C.cz)))
-        keep.append(c)
+        keep.append(rec)
     bad, fails, _ = C.coq_eval(ctx, label, COQ_HEADER, lits, COQ_BODY)
     rep.corr(label, len(lits), bad, fails, lambda i: keep[i])
     rep.traces += len(lits) - len(bad)
     return bad or fails
+
+
+def elem_fails(e, x):
+    return "_crash" in x or bool(x.get("badtype")) or not oracle(e["now"], e["T"], x["delay"])
+
+
+def shrink_group(ctx, g):
+    """the recorded replay of the first failing group: drop elements one at a time while element `at` still fails when the
+    remaining group runs alone in a fresh process (every candidate is a whole group case of its own)"""
+    for _ in range(12):
+        el, at = g["group"], g["at"]
+        cands = []
+        for j in range(len(el)):
+            if j == at:
+                continue
+            keepi = [i for i in range(len(el)) if i != j]
+            c = dict(g, group=[el[i] for i in keepi], at=keepi.index(at))
+            if g.get("build_order"):
+                c["build_order"] = [keepi.index(i) for i in g["build_order"] if i != j]
+            cands.append(c)
+        if not cands:
+            break
+        obs = C.run_driver(ctx, "sched_delay", cands, nproc=1)
+        for c, o in zip(cands, obs):
+            if "group" in o and elem_fails(c["group"][c["at"]], o["group"][c["at"]]):
+                g = c
+                break
+        else:
+            break
+    return g
 
 
 def float_exhaustive(ctx, rep):
@@ -254,17 +590,22 @@ def run(ctx):
     r = ctx.sub_rng("gen")
     cases = [gen_case(r) for _ in range(ctx.n(3400, 200000))]
     broken = explore(ctx, rep, cases, "main")
+    rg = ctx.sub_rng("groups")
+    broken = explore(ctx, rep, [gen_group(rg) for _ in range(ctx.n(170, 9000))], "back-to-back-groups") or broken
     if not ctx.quick:
         float_exhaustive(ctx, rep)
     if (broken or any(not o["ok"] for o in rep.obligations)) and not rep.failures:
         r2 = ctx.sub_rng("search")
-        explore(ctx, rep, [gen_case(r2) for _ in range(ctx.n(30000, 400000))], "search")
+        explore(ctx, rep, [gen_case(r2) for _ in range(ctx.n(30000, 400000))] +
+                [gen_group(r2) for _ in range(ctx.n(1500, 20000))], "search")
     return rep.finish()
 
 
 def replay(ctx, path):
     rec = json.load(open(path))
-    c = rec["case"]
+    c = rec["case"] if "case" in rec else rec
+    if c.get("type") == "group":
+        return replay_group(ctx, c)
     obs = C.run_driver(ctx, "sched_delay", [c], nproc=1)[0]
     print("case:", json.dumps(c))
     print("implementation:", obs)
@@ -276,3 +617,42 @@ def replay(ctx, path):
     ok = "_crash" not in obs and oracle(c["now"], c["T"], obs["delay"])
     print("holds" if ok else "VIOLATED")
     return 0 if ok else 1
+
+
+def show_spell(e):
+    sp = e["spell"]
+    if "wall" in sp:
+        return "%s %04d-%02d-%02dT%02d:%02d:%02d.%06d fold=%d in %s" % ((sp["kind"],) + tuple(sp["wall"]) + (sp["fold"], sp["zone"]))
+    return json.dumps(sp)
+
+
+def replay_group(ctx, g):
+    """the whole group again in one fresh process, every element judged on its own"""
+    o = C.run_driver(ctx, "sched_delay", [g], nproc=1)[0]
+    obs = o["group"] if "group" in o else [o] * len(g["group"])
+    print("back-to-back group: %d schedules built (%s%s) and evaluated in ONE process%s" % (
+        len(obs), g.get("mode", "interleaved"), "" if not g.get("build_order") else ", construction order %r" % g["build_order"],
+        "" if g.get("at") is None else " (recorded failing element: %d)" % g["at"]))
+    if g["group"] and g["group"][0].get("host"):
+        print("host time zone of the scheduler process (TZ): %s - the statement does not depend on it" % g["group"][0]["host"])
+    rc = 0
+    for k, (e, x) in enumerate(zip(g["group"], obs)):
+        head = "[%d] now=%d T=%d (T-now=%d us) spelled %s%s%s%s" % (
+            k, e["now"], e["T"], e["T"] - e["now"], show_spell(e), "" if e.get("obj") is None else " object#%d" % e["obj"],
+            "" if e.get("task") is None else " task#%d" % e["task"], "" if not e.get("via") else " via " + e["via"])
+        if x.get("spelled_us") not in (None, e["T"]):
+            print(head + ": HARNESS INCONSISTENCY (the spelled value is instant %r)" % x["spelled_us"])
+            rc = 1
+            continue
+        if "_crash" in x:
+            print(head + ": VIOLATED (raised) " + x["_crash"][-300:])
+            rc = 1
+            continue
+        ok = not elem_fails(e, x)
+        nb = e["now"] // MIN * MIN + MIN
+        print(head + ": expected %s, got %r: %s" % (
+            "0" if e["T"] <= e["now"] else "None" if e["T"] > nb + US else "d with T <= now + d*1e6 < T + 1e6",
+            x["delay"], "holds" if ok else "VIOLATED"))
+        rc |= 0 if ok else 1
+    print("holds" if rc == 0 else "VIOLATED")
+    return rc
